@@ -452,6 +452,17 @@ def one_run(spec, rng, res, model, gitdir, d, sel, roots):
             amb["GIT_CONFIG_VALUE_%d" % i_] = v_
     if rng.random() < 0.15:
         amb["GIT_TRACE"] = "1"
+    if rng.random() < 0.12 and getattr(model, "commits", None):
+        # a graft file named by the caller's environment: grafts must never change what is traversed
+        gf = os.path.join(d, "env-grafts-%d" % res["runs"])
+        cs = [c for c in model.commits if os.path.exists(os.path.join(gitdir, "objects", c.oid[:2], c.oid[2:]))]
+        extra = [o for o in model.all_objects().values() if o.kind == "commit"]
+        if cs and extra:
+            with open(gf, "w") as f:
+                for _ in range(rng.randint(1, 2)):
+                    c = rng.choice(cs)
+                    f.write(" ".join([c.oid] + [p_.oid for p_ in c.parents] + [rng.choice(extra).oid]) + "\n")
+            amb["GIT_GRAFT_FILE"] = gf
     plan = None
     pdir = None
     if spec.get("permute") and rng.random() < spec["permute"]:
@@ -464,9 +475,25 @@ def one_run(spec, rng, res, model, gitdir, d, sel, roots):
         pdir = os.path.join(d, "fplan%d" % res["runs"])
         sig = rng.choice(["for-each-ref", "rev-list", "cat-file --batch-check", "cat-file --batch", "rev-parse --verify",
                           "config --list", "rev-parse --git-path"])
+        after = rng.choice([0, 41, 82, 150, 400, 1 << 40])
+        if sig == "cat-file --batch" and rng.random() < 0.6:
+            # cut somewhere in the tail of the batch output (the tag objects come last)
+            allo = O.reachable(list(model.refs.values()) + [o for _, o in roots])
+            total = sum(len("%s %s %d\n" % (o.oid, o.kind, o.size)) + o.size + 1 for o in allo.values() if o.kind != "blob")
+            after = max(0, total - rng.randint(1, 400))
         plan = R.make_plan(pdir, [{"sig": sig, "ord": 0, "mode": "fault", "term": rng.choice(["exit:128", "exit:2", "sig:KILL"]),
-                                   "after_bytes": rng.choice([0, 41, 82, 150, 400, 1 << 40])}])
+                                   "after_bytes": after}])
         faulted = True
+    if plan is None and spec.get("shimdir") and rng.random() < 0.08:
+        # children that deliver their output in pieces with long pauses in between (a stalled pipe, a loaded machine)
+        pdir = os.path.join(d, "stall%d" % res["runs"])
+        rules = []
+        for sg in ("for-each-ref", "rev-list", "cat-file --batch-check", "cat-file --batch"):
+            if rng.random() < 0.6:
+                rules.append({"sig": sg, "ord": -1, "mode": "delay", "chunk": rng.choice([30, 75, 150, 400, 2000]),
+                              "chunk_ms": rng.choice([120, 180, 250]), "max_ms": rng.choice([300, 600, 900])})
+        plan = R.make_plan(pdir, rules)
+        res["stalled_runs"] = res.get("stalled_runs", 0) + 1
     cut_refs = False
     if plan is None and spec.get("shimdir") and names == "full" and rng.random() < spec.get("cut_refs", 0.0):
         pdir = os.path.join(d, "cplan%d" % res["runs"])
